@@ -42,7 +42,7 @@ type c20ExploreC struct {
 	Note      string            `json:"note,omitempty"`
 }
 
-var c20Targets = []string{"strvals", "strvals", "values", "manifests", "archive", "chartfiles", "chartfiles", "lint", "index", "prov", "ignore", "plugin", "actions"}
+var c20Targets = []string{"strvals", "strvals", "values", "manifests", "archive", "chartfiles", "chartfiles", "lint", "index", "prov", "ignore", "plugin", "actions", "template"}
 
 // ---------- seeds ----------
 
@@ -386,6 +386,11 @@ func c20ExploreCorpus() []any {
 	for _, w := range [][2]string{{"list", "noinfo"}, {"status", "noinfo"}, {"getmetadata", "noinfo"}, {"getmetadata", "nochart"}, {"getmetadata", "nometa"}} {
 		out = append(out, c20Case{Kind: "explore", Explore: &c20ExploreC{Target: "actions", Note: w[0], Data: []byte(w[1]), Mutations: 1}})
 	}
+	// the helm-template path: the unmutated chart with every extra once (symlink loops, alias bombs,
+	// deep YAML, include / template / tpl recursion incl. the witness of 156f591)
+	for i, x := range c20TemplateExtras[1:] {
+		out = append(out, c20Case{Kind: "explore", Explore: &c20ExploreC{Target: "template", Files: c20SeedChartFiles(), Note: x, Data: []byte{0, 0, 0, byte(i)}, Mutations: 1}})
+	}
 	// witness of 385b115: lint of a chart whose maintainers list has a null item
 	f := c20SeedChartFiles()
 	f["Chart.yaml"] = []byte("apiVersion: v2\nname: top\nversion: 1.2.3\nmaintainers:\n- null\n")
@@ -437,7 +442,7 @@ func c20GenExplore(r *rand.Rand) *c20ExploreC {
 	case "prov":
 		e.Mutations = 1 + r.Intn(3)
 		e.Data = []byte{byte(r.Intn(256)), byte(r.Intn(256)), byte(r.Intn(256)), byte(r.Intn(256)), byte(r.Intn(256)), byte(r.Intn(256)), byte(r.Intn(256)), byte(r.Intn(256))} // mutation seed
-	case "chartfiles", "lint", "archive":
+	case "chartfiles", "lint", "archive", "template":
 		files := c20SeedChartFiles()
 		names := make([]string, 0, len(files))
 		for n := range files {
@@ -473,7 +478,18 @@ func c20GenExplore(r *rand.Rand) *c20ExploreC {
 			files["Chart.lock"] = [][]byte{[]byte("null"), []byte("dependencies: [null]\ndigest: x\n"), []byte("[1]")}[r.Intn(3)]
 		}
 		e.Mutations = nm
-		if t == "archive" {
+		if t == "template" {
+			e.Note = c20TemplateExtras[r.Intn(len(c20TemplateExtras))]
+			for k := 0; k < 2 && c20ExpensiveExtra[e.Note]; k++ { // recursion to the limit costs ~0.3 s: keep it rarer
+				e.Note = c20TemplateExtras[r.Intn(len(c20TemplateExtras))]
+			}
+			if r.Intn(3) == 0 {
+				files = c20SeedChartFiles() // the extra alone on the unmutated chart
+				e.Mutations = 1
+			}
+			e.Data = []byte{byte(r.Intn(256)), byte(r.Intn(256)), byte(r.Intn(256)), byte(r.Intn(256))}
+			e.Files = files
+		} else if t == "archive" {
 			tgz := c20BuildTgz(c20FilesToTar(r, files, []string{"top/", "top/", "", "./top/", "a/b/"}[r.Intn(5)], r.Intn(2) == 0))
 			if r.Intn(3) == 0 {
 				tgz = c20MutBytes(r, tgz) // corrupt the compressed stream
@@ -654,6 +670,8 @@ func c20RunExplore(e *c20ExploreC, step *string) (accepted bool) {
 		return c20RunProv(e, step)
 	case "actions":
 		return c20RunAction(e, step)
+	case "template":
+		return c20RunTemplate(e, step)
 	case "selftest-fatal":
 		// self-test of the worker isolation only (never generated): unrecoverable stack exhaustion
 		if os.Getenv("C20_SELFTEST") == "1" {
